@@ -216,6 +216,12 @@ def _replay_theta(rows):
     bad = []
     for (p, q), inside, bd, G in rows:
         theta = 2 * math.degrees(math.atan2(p, q))
+        try:      # a caller of the public helper who scribbles on ITS OWN result: cones built afterwards are still the theta-cones
+            from vopy.utils import get_2d_w
+            w_own = get_2d_w(theta)
+            w_own *= -2.0
+        except Exception:
+            pass
         o = ConeTheta2DOrder(theta)
         W = o.ordering_cone.W
         Wi = np.array([[p - q, p + q], [p + q, p - q]], dtype=float)
